@@ -44,3 +44,4 @@ require (
 replace github.com/blevesearch/bleve/v2 => /repo
 
 replace github.com/blevesearch/bleve_index_api => ./.build/deps/bleve_index_api
+replace go.etcd.io/bbolt => ./.build/deps/bbolt
